@@ -81,6 +81,16 @@ def gen(rng, tier):
         ops = c18.case_ops(cli, srv, ct, st, cf, sf, style, seg, rng.randrange(10**6), csz, ssz, shared)
         if ops:
             cases.append(("tls", "tls%d" % k, ops))
+    # congested full-duplex TLS transfers with limited timeouts: tiny socket buffers, multi-record payloads in both
+    # directions, so that Send(T) really waits for a peer that is not reading at that moment (every wait of every call is
+    # checked against the call's budget)
+    for j in range(8 if tier == "quick" else 200):
+        cli, srv = rng.choice(["basic", "buffered"]), rng.choice(["basic", "buffered"])
+        T = rng.choice([50, 50, 17])
+        ops = c18.case_ops(cli, srv, T, rng.choice([T, 0]), "s", "s", "poll", rng.choice([0, 100]), rng.randrange(10**6),
+                           rng.choice([40000, 60000]), rng.choice([40000, 60000]), extra="bufs=8192")
+        if ops:
+            cases.append(("tls", "tlsc%d" % j, ops))
     return cases
 
 
